@@ -284,10 +284,10 @@ func (x *Exec) race(addr uintptr, a access, ak string, b access, bk string) {
 		p, q = q, p
 	}
 	sig := p + "~" + q
-	if !harnessFn(fa) {
+	if !harnessFn(fa) || x.raceAll {
 		x.racyFound[pcSite(a.pc)] = true
 	}
-	if !harnessFn(fb) {
+	if !harnessFn(fb) || x.raceAll {
 		x.racyFound[pcSite(b.pc)] = true
 	}
 	if x.raceSeen[sig] {
